@@ -641,3 +641,9 @@ where
         let _ = self.inner.streams.recv_eof(true);
     }
 }
+
+#[cfg(feature = "verif")]
+#[allow(missing_docs, dead_code, unused_imports)]
+pub(crate) mod verif_h {
+    include!(concat!(env!("H2_VERIF_DIR"), "/harness/proto/connection.rs"));
+}
